@@ -226,11 +226,11 @@ theorem vertexProcess_ok {tol : Option (α × DistanceUnit)} {q : Json} {oc dc :
             exact ⟨rfl, cd, rd, rfl, hv2, by simp [hm2]⟩
 
 /-- what the code's tolerance test demands of the chosen vertex: a great-circle distance exists and,
-converted into the tolerance's unit, is strictly below the tolerance -/
+converted into the tolerance's unit, is at most the tolerance -/
 def Passes (tol : Option (α × DistanceUnit)) (c : VCand α) : Prop :=
   match tol with
   | none => True
-  | some (t, u) => ∃ g, c.gc = some g ∧ DistanceUnit.meters.convert u g < t
+  | some (t, u) => ∃ g, c.gc = some g ∧ DistanceUnit.meters.convert u g ≤ t
 
 theorem validateTolerance_ok_iff (tol : Option (α × DistanceUnit)) (c : VCand α) :
     validateTolerance tol c = .ok () ↔ Passes tol c := by
@@ -244,20 +244,20 @@ theorem validateTolerance_ok_iff (tol : Option (α × DistanceUnit)) (c : VCand 
     | some g =>
       simp only [Option.some.injEq, exists_eq_left']
       split
-      · next h => simp [not_lt.mpr h]
-      · next h => simp [not_le.mp h]
+      · next h => simp [h]
+      · next h => simp [h]
 
 theorem validateTolerance_beyond_iff (t : α) (u : DistanceUnit) (c : VCand α) :
     validateTolerance (some (t, u)) c = .error .beyondTolerance ↔
-      ∃ g, c.gc = some g ∧ t ≤ DistanceUnit.meters.convert u g := by
+      ∃ g, c.gc = some g ∧ t < DistanceUnit.meters.convert u g := by
   unfold validateTolerance
   cases hg : c.gc with
   | none => simp
   | some g =>
     simp only [Option.some.injEq, exists_eq_left']
     split
-    · next h => simp [h]
-    · next h => simp [h]
+    · next h => simp [not_lt.mpr h]
+    · next h => simp [not_le.mp h]
 
 theorem meters_factor_wf : ∀ u : DistanceUnit, (DistanceUnit.factor .meters u).wf = true := by
   intro u; cases u <;> decide
